@@ -43,4 +43,22 @@ def generate(seed, tier):
             lines.append("send end")
             n += 1
     g.count("fault_patterns", n)
+    # connections closed on the proxy's side between messages (its reader goroutine hangs up), for every target that
+    # can dial, with and without a configured local port for the backend
+    import os, time
+    lport = 22000 + ((os.getpid() * 17 + int(time.time())) % 1990)     # below the ephemeral range, away from the listener's range
+    for t in ["client 1 none", "backend none", "backend none %d" % lport, "failover none fresh", "backend s:011 %d" % (lport + 1)]:
+        for k in (2, 3, 4):
+            lines.append("send new " + t)
+            lines.append("send listener up")
+            for i in range(k):
+                lines.append("send msg %d" % (i + 1))
+                lines.append("send closelocal")
+            lines.append("send end")
+            g.count("closed_on_this_side_patterns")
+    # an idle period between two messages on a working dialed connection (longer than any send time-out one might
+    # think of): the second message goes straight over the same connection
+    for t in (["client 1 none"] if tier == "quick" else ["client 1 none", "failover none fresh", "backend none"]):
+        lines += ["send new " + t, "send listener up", "send msg 1", "send sleep 5600", "send msg 2", "send end"]
+        g.count("idle_period_patterns")
     return lines, g.stats
